@@ -134,8 +134,17 @@ def expand_text(pattern, n):
   return (pattern.encode('latin-1') + b''.join(out))[:n].decode('latin-1')
 
 
+def _accept_rows(rows):
+  return True
+
+
+def _emitter(test):
+  pass
+
+
 def check(case):
   r = CaseResult()
+  from openhtf.util import validators as _validators  # pylint: disable=g-import-not-at-top
   prog = copy.deepcopy(case['prog'])
   htf = ohtf.reset_case(cancel_timeout_s=0.05, plug_teardown_timeout_s=0.05, **progs.conf_values(prog))
   ctx = progs.Ctx()
@@ -156,6 +165,10 @@ def check(case):
         m = m.with_transform(lambda x: 's:%s' % (x,))
     if d.get('validator'):
       m = m.in_range(0, 10) if not d['dims'] else m
+    if d.get('cv'):
+      # conditional validator: becomes a validator of the running phase's copy iff the diagnosis result was issued before
+      R = progs.result_enum()
+      m = m.validate_on({(R.R3 if d['cv'] == 'active' else R.R2): (_validators.in_range(0, 10) if not d['dims'] else _accept_rows)})
     ms.append(m)
   problems = []
   model = {n: {'set': False, 'value': None, 'rows': []} for n in names}
@@ -216,7 +229,7 @@ def check(case):
           try:
             test.measurements[name] = v
           except Exception:  # pylint: disable=broad-except
-            if not d.get('validator'):  # in_range raises on non-numbers: the value is recorded nevertheless
+            if not (d.get('validator') or d.get('cv')):  # in_range raises on non-numbers: the value is recorded nevertheless
               raise
           flags['writes'] += 1
           last_was_write = True
@@ -302,6 +315,15 @@ def check(case):
   ctx.raw[1000] = rich
   pos = case['pos'] % (len(prog['nodes']) + 1)
   prog['nodes'].insert(pos, {'t': 'raw', 'id': 1000})
+  if any(d.get('cv') == 'active' for d in decls):
+    R = progs.result_enum()
+
+    @htf.PhaseDiagnoser(R)
+    def emit_r3(phase_record):
+      return htf.Diagnosis(R.R3, 'issued before the rich phase')
+
+    ctx.raw[1001] = htf.diagnose(emit_r3)(_emitter)
+    prog['nodes'].insert(pos, {'t': 'raw', 'id': 1001})
   test, tsarg = progs.build_test(prog, ctx, htf)
   final = []
   test.add_output_callbacks(final.append)
@@ -511,7 +533,7 @@ def cases(draw):
   nm = draw(st.integers(1, 3))
   decls = [{'dims': draw(st.sampled_from([0, 0, 1, 2])),
             'transform': draw(st.sampled_from([None, None, ['mul', 100], ['mul', 2], ['str'], ['prec', 1]])),
-            'validator': draw(st.booleans())} for _ in range(nm)]
+            'validator': draw(st.booleans()), 'cv': draw(st.sampled_from([None, None, 'active', 'inactive']))} for _ in range(nm)]
   n = draw(st.integers(1, 30))
   return {'prog': prog, 'meas': decls, 'ops': [draw(ops(decls)) for _ in range(n)], 'pos': draw(st.integers(0, 3))}
 
